@@ -1,5 +1,5 @@
 """C12 — Python literals are promoted identically by converter, eager mode and builder."""
-MODULES = ["contracts.c12_autocast"]
+MODULES = ["contracts.c12_autocast", "contracts.c01_operators"]
 
 CACHE_REPLAY = '''
 import sys, struct
